@@ -41,41 +41,88 @@ def texts : List Seg → Str
   | .esc _ :: r => texts r
   | .text t :: r => t ++ texts r
 
-theorem styledLines_strip (cw : Char → Nat) : ∀ (lines : List Str) (st : LW) (first : Bool),
+theorem styledLines_strip (cw : Char → Nat) : ∀ (lines : List Str) (st : LW) (atStart : Bool),
     (∀ c, st.carry = some c → strip c = []) →
-    strip (styledLines cw st first lines).2.flatten = strip lines.flatten ∧
-    (∀ c, (styledLines cw st first lines).1.carry = some c → strip c = [])
+    strip (styledLines cw st atStart lines).2.flatten = strip lines.flatten ∧
+    (∀ c, (styledLines cw st atStart lines).1.1.carry = some c → strip c = [])
   | [], st, _, hc => by simp [styledLines]; exact hc
-  | l :: ls, st, first, hc => by
+  | l :: ls, st, atStart, hc => by
     unfold styledLines
     simp only
-    have h0 : ∀ c, (if first then st else st.reset).carry = some c → strip c = [] := by
+    have h0 : ∀ c, (if atStart then st.reset else st).carry = some c → strip c = [] := by
       split
-      · exact hc
       · simp [LW.reset]
-    obtain ⟨a1, a2, _⟩ := LWwrap_strip cw (if first then st else st.reset) (findWords l) h0
-    obtain ⟨b1, b2⟩ := styledLines_strip cw ls ((if first then st else st.reset).wrap cw (findWords l)).1 false a2
+      · exact hc
+    obtain ⟨a1, a2, _⟩ := LWwrap_strip cw (if atStart then st.reset else st) (findWords l) h0
+    obtain ⟨b1, b2⟩ := styledLines_strip cw ls ((if atStart then st.reset else st).wrap cw (findWords l)).1 (endsNl l) a2
     refine ⟨?_, b2⟩
     simp only [List.flatten_append, strip_append, List.flatten_cons]
     rw [a1, b1, findWords_flatten]
 
 /-- the styling sequences of the output are those of the input, each intact, in order -/
-theorem styled_escapes_preserved (cw : Char → Nat) : ∀ (segs : List Seg) (st : LW),
-    escs (styledSegs cw st segs) = escs segs
-  | [], _ => rfl
-  | .esc e :: r, st => by simp [styledSegs, escs, styled_escapes_preserved cw r st]
-  | .text t :: r, st => by simp [styledSegs, escs, styled_escapes_preserved cw r _]
+theorem styled_escapes_preserved (cw : Char → Nat) : ∀ (segs : List Seg) (st : LW) (b : Bool),
+    escs (styledSegs cw st b segs) = escs segs
+  | [], _, _ => rfl
+  | .esc e :: r, st, b => by simp [styledSegs, escs, styled_escapes_preserved cw r st b]
+  | .text t :: r, st, b => by simp [styledSegs, escs, styled_escapes_preserved cw r _ _]
 
 /-- the visible (non-whitespace) text between the styling sequences is unchanged -/
-theorem styled_preserves_words (cw : Char → Nat) : ∀ (segs : List Seg) (st : LW),
+theorem styled_preserves_words (cw : Char → Nat) : ∀ (segs : List Seg) (st : LW) (b : Bool),
     (∀ c, st.carry = some c → strip c = []) →
-    strip (texts (styledSegs cw st segs)) = strip (texts segs)
-  | [], _, _ => rfl
-  | .esc e :: r, st, hc => by simp [styledSegs, texts, styled_preserves_words cw r st hc]
-  | .text t :: r, st, hc => by
-    obtain ⟨a, b⟩ := styledLines_strip cw (splitInclusive t) st true hc
+    strip (texts (styledSegs cw st b segs)) = strip (texts segs)
+  | [], _, _, _ => rfl
+  | .esc e :: r, st, b, hc => by simp [styledSegs, texts, styled_preserves_words cw r st b hc]
+  | .text t :: r, st, b, hc => by
+    obtain ⟨a, b'⟩ := styledLines_strip cw (splitInclusive t) st b hc
     simp only [styledSegs, texts, strip_append]
-    rw [styled_preserves_words cw r _ b, a, splitInclusive_flatten]
+    rw [styled_preserves_words cw r _ _ b', a, splitInclusive_flatten]
+
+/-- at the start of a line the wrapper starts afresh: what was wrapped before (its line width, its indent) has no
+influence on the lines that follow - also across a change of style (finding F25, repaired) -/
+theorem styledLines_fresh (cw : Char → Nat) (st st' : LW) (h : st.hard = st'.hard) (l : Str) (ls : List Str) :
+    styledLines cw st true (l :: ls) = styledLines cw st' true (l :: ls) := by
+  have hr : st.reset = st'.reset := by simp [LW.reset, h]
+  unfold styledLines
+  simp only [↓reduceIte, hr]
+
+theorem styledLines_hard (cw : Char → Nat) : ∀ (lines : List Str) (st : LW) (b : Bool),
+    (styledLines cw st b lines).1.1.hard = st.hard
+  | [], _, _ => rfl
+  | l :: ls, st, b => by
+    unfold styledLines
+    simp only
+    rw [styledLines_hard cw ls]
+    have : ∀ (s : LW) (ws : List Str), (s.wrap cw ws).1.hard = s.hard := by
+      intro s ws
+      unfold LW.wrap
+      simp only
+      have hl : ∀ (ws : List Str) (s : LW) (b : Bool) (acc : List Str), (wrapLoop cw s b acc ws).1.hard = s.hard := by
+        intro ws
+        induction ws with
+        | nil => intro s b acc; simp [wrapLoop]
+        | cons w ws ih =>
+          intro s b acc
+          unfold wrapLoop
+          simp only
+          split <;> (try split) <;> rw [ih]
+      rw [hl]
+      split <;> rfl
+    rw [this]
+    split <;> simp [LW.reset]
+
+/-- whole styled texts: once a line has ended, the rest is wrapped as if nothing had come before -/
+theorem styledSegs_fresh (cw : Char → Nat) : ∀ (segs : List Seg) (st st' : LW), st.hard = st'.hard →
+    styledSegs cw st true segs = styledSegs cw st' true segs
+  | [], _, _, _ => rfl
+  | .esc e :: r, st, st', h => by simp [styledSegs, styledSegs_fresh cw r st st' h]
+  | .text t :: r, st, st', h => by
+    unfold styledSegs
+    cases hs : splitInclusive t with
+    | nil => simp [styledLines, styledSegs_fresh cw r st st' h]
+    | cons l ls => rw [styledLines_fresh cw st st' h l ls]
+
+example : styledWrap (fun _ => 1) [.text "  aa bb\n".toList, .esc "\x1b[1m".toList, .text "cc dd ee".toList] 5 =
+    "  aa\n  bb\n\x1b[1mcc dd\nee".toList := by decide
 
 /-- an SGR sequence `ESC [ params m` contributes nothing to the display width -/
 theorem displayWidth_sgr_zero (cw : Char → Nat) (params rest : Str) (h : ∀ c ∈ params, c ≠ 'm') :
